@@ -504,6 +504,33 @@ def _execute(w, case, prefix, fp, explore_sched, out):
                 out['reenc'][label] = r
                 w.run(cc.disconnect(), horizon=loop.time() + 30.0)
                 w.settle()
+            if case.get('repair') and not tamper:
+                # the same two devices pair a second time on a new connection (same roles, same answers)
+                del enc[:]
+                shared.displayed = {'i': loop.create_future(), 'r': loop.create_future()}  # the displays show nothing yet
+                cc, pc = connect(w, 0, 1, reconnect_addr)
+                ev2 = {'i': [], 'r': []}
+                for me, conn in (('i', cc), ('r', pc)):
+                    conn.on('pairing', lambda keys, me=me: ev2[me].append(('paired', keys_to_json(keys))))
+                    conn.on('pairing_failure', lambda reason, me=me: ev2[me].append(('failed', int(reason))))
+                t2 = loop.create_task(cc.pair())
+                horizon = loop.time() + 120.0
+                hang2 = not pump(lambda: t2.done() and bool(ev2['i']) and bool(ev2['r']))
+                pump(lambda: False, timers=False)
+                res2 = None
+                if t2.done() and not t2.cancelled():
+                    ex = t2.exception()
+                    res2 = 'ok' if ex is None else f'{type(ex).__name__}:{getattr(ex, "error_code", "")}'
+                elif not t2.done():
+                    t2.cancel()
+                out['repair'] = {
+                    'pair_result': res2,
+                    'hang': hang2,
+                    'events': {k: [(e[0], e[1] if e[0] == 'failed' else None) for e in v] for k, v in ev2.items()},
+                    'handle_reused': cc.handle == c_conn.handle,
+                    'stores': {'i': store_dump(w, 0), 'r': store_dump(w, 1)},
+                    'keys': {k: [e[1] for e in v if e[0] == 'paired'] for k, v in ev2.items()},
+                }
         except (Hang, RuntimeError) as e:
             out['reenc']['error'] = f'{type(e).__name__}: {e}'
         loop.collect_exceptions()
